@@ -319,6 +319,10 @@ def Prog.runs {σ ε : Type} [DecidableEq σ] (D : Dev σ ε) (strict : Bool) : 
       let res := D.step strict dev a o
       ((k res.2).runs D strict res.1).map fun r => { r with steps := ⟨a, o, dev, res.1⟩ :: r.steps }
 
+/-- The code as it is has the repair (`fix:` commit "FairMQ transitioner stops after a roll-back …" in /repo);
+    `fixed = false` is the code before it. Tied to the source by the exhaustive correspondence run. -/
+def codeFixed : Bool := true
+
 /-- The FAIRMQ transitioner against a FairMQ device that is in the state the request names as source. -/
 def runFMQ (fixed strict : Bool) (evt : O2Event) (src : O2State) (script : List Outcome) : Run FState FEvent :=
   (commitFMQ fixed evt src (dstOf evt)).run fmqDev strict (fmqOf src) script
